@@ -109,6 +109,23 @@ class Setup:
             eng.obligs[n0:] = [ob for ob in eng.obligs[n0:] if ob.kind != "safety"]
         return o
 
+    def call(self, target, *args, **kwargs):
+        """HISTORY of an input: run a REAL repository function / method on symbolic values before the carrier is entered, so that the
+        carrier receives objects "as an earlier call left them" (a memo filled by a query, the copy a transform made ...).
+        `target` is a callable value (`Func` / `Bound`) or a pair (object or repository class, attribute name); the body is interpreted
+        from the repository like any inlined callee.  Branches split the proof paths; arguments on which the earlier call raises
+        describe no history (the path is dropped); the obligations of the earlier call are those of ITS OWN carrier and are not
+        repeated here (its conditions are assumed, as with `new`).  Everything it allocates exists before the carrier is entered."""
+        eng = self.eng
+        n0 = len(eng.obligs)
+        try:
+            fn = eng.getattr_(target[0], target[1]) if isinstance(target, tuple) else target
+            return eng.call(fn, list(args), dict(kwargs))
+        except ProgExc:
+            raise Infeasible()
+        finally:
+            del eng.obligs[n0:]
+
     def opaque(self, proto, name="o"):
         return Opaque(z3.Const(fresh_name(name), z3.IntSort()), proto)
 
